@@ -210,6 +210,16 @@ func YAMLUnmarshalerWithValidator(validator protoyaml.Validator) YAMLUnmarshaler
 	}
 }
 
+// YAMLUnmarshalerWithDiscardUnknown says to discard unknown fields instead of returning an error.
+//
+// This is needed for the first pass of a two-pass unmarshal that bootstraps a Resolver from
+// the message itself: extension fields cannot be resolved before the Resolver exists.
+func YAMLUnmarshalerWithDiscardUnknown() YAMLUnmarshalerOption {
+	return func(yamlUnmarshaler *yamlUnmarshaler) {
+		yamlUnmarshaler.discardUnknown = true
+	}
+}
+
 // NewYAMLUnmarshaler returns a new Unmarshaler for yaml.
 //
 // If the resolver is nil, EmptyResolver will be used.
